@@ -1167,6 +1167,23 @@ func checkCallback(c *checkCtx) {
 			c.violation(name, map[string]interface{}{"index": i}, "%s", viol)
 		}
 	}
+	// ---- directed: a user goroutine's Close() waits for the ending callback goroutine while the event loop starts the next one
+	if ownViolations == 0 {
+		iters, reached, viol, inc := cbkDirectedCloseVsRestart(c, c.pick(2000, 30000))
+		c.eval(1)
+		c.count("directed close-vs-restart iterations (Close waiting for the ending callback goroutine while a message arrives)", int64(iters))
+		c.count("directed close-vs-restart iterations in which all three parties were held at their points", int64(reached))
+		if inc != "" {
+			c.inconclusiveCase("directed-close-vs-restart", inc)
+		}
+		if reached > 0 {
+			c.nontrivial("close-vs-restart")
+		}
+		if viol != "" {
+			ownViolations++
+			c.violation("directed-close-vs-restart", map[string]interface{}{"iterations": iters}, "%s", viol)
+		}
+	}
 	// ---- race-detector pass: evidence (pairs listed) plus one sound sentinel: the recorder's deliberately plain per-stream
 	// counter is written by every OnData invocation; on a correct tree consecutive invocations are ordered by the atomics on
 	// callbackInProcess / the goroutine start, so a report with both stacks inside the recorder's OnData means two invocations
@@ -1321,4 +1338,128 @@ func cbkDirectedLateData(c *checkCtx, idx int) (viol string, inc string) {
 		return fmt.Sprintf("directed late-data: byte %d of the record differs from what the peer flushed", b-1), ""
 	}
 	return "", ""
+}
+
+// ---------------------------------------------------------------------------------------------
+// cbkDirectedCloseVsRestart: the ending callback goroutine is held right after it has cleared callbackInProcess (hook
+// CbAfterStore0), the event loop is held with the next message just before it starts a callback goroutine (hook
+// FillBeforeCbCAS), a user goroutine calls Close() and waits for the ending goroutine; then both are let go, the goroutine a
+// few hundred nanoseconds before the loop. Whatever the order, nothing may panic (a callback goroutine started while Close
+// is returning from its wait is a WaitGroup misuse: the process dies) and Close must return.
+type cbkWgCb struct{ nLocal, nRemote int32 }
+
+func (w *cbkWgCb) OnData(r BufferReader) {
+	if n := r.Len(); n > 0 {
+		r.ReadBytes(n)
+		r.ReleasePreviousRead()
+	}
+}
+func (w *cbkWgCb) OnLocalClose()  { atomic.AddInt32(&w.nLocal, 1) }
+func (w *cbkWgCb) OnRemoteClose() { atomic.AddInt32(&w.nRemote, 1) }
+
+func cbkDirectedCloseVsRestart(c *checkCtx, iters int) (done int, reached int, viol string, inc string) {
+	p, err := newSessionPair(pairOpt{})
+	if err != nil {
+		return 0, 0, "", "pair: " + err.Error()
+	}
+	defer p.close()
+	var target atomic.Value // *Stream under test
+	var arm1, arm2 int32
+	g1Parked, loopParked := make(chan struct{}, 1), make(chan struct{}, 1)
+	var g1Release, loopRelease atomic.Value // chan struct{}
+	k := newCtl("close-vs-restart", c.seed)
+	hold := func(arm *int32, parked chan struct{}, rel *atomic.Value) func(obj interface{}, n int64) {
+		return func(obj interface{}, n int64) {
+			st, _ := obj.(*Stream)
+			if t, _ := target.Load().(*Stream); st == nil || st != t || !atomic.CompareAndSwapInt32(arm, 1, 0) {
+				return
+			}
+			ch, _ := rel.Load().(chan struct{})
+			parked <- struct{}{}
+			select {
+			case <-ch:
+			case <-time.After(5 * time.Second):
+			}
+		}
+	}
+	k.on(vpCbAfterStore0, hold(&arm1, g1Parked, &g1Release))
+	k.on(vpFillBeforeCbCAS, hold(&arm2, loopParked, &loopRelease))
+	k.install()
+	defer uninstallCtl()
+	rng := caseRand(c.seed, 1490000)
+	wait := func(ch chan struct{}) bool {
+		select {
+		case <-ch:
+			return true
+		case <-time.After(5 * time.Second):
+			return false
+		}
+	}
+	for it := 0; it < iters; it++ {
+		cl, err := p.client.OpenStream()
+		if err != nil {
+			return done, reached, "", "open: " + err.Error()
+		}
+		cb := &cbkWgCb{}
+		cl.SetCallbacks(cb)
+		cl.BufferWriter().WriteBytes([]byte("go"))
+		if cl.Flush(false) != nil {
+			return done, reached, "", "flush"
+		}
+		sv := p.serverStream(cl.StreamID(), 10*time.Second)
+		if sv == nil {
+			return done, reached, "", "server stream did not appear"
+		}
+		sv.BufferReader().ReadBytes(2)
+		sv.BufferReader().ReleasePreviousRead()
+		g1c, lpc := make(chan struct{}), make(chan struct{})
+		g1Release.Store(g1c)
+		loopRelease.Store(lpc)
+		target.Store(cl)
+		send := func() bool {
+			sv.BufferWriter().WriteBytes(make([]byte, 16))
+			return sv.Flush(false) == nil
+		}
+		ok := true
+		atomic.StoreInt32(&arm1, 1)
+		if !send() || !wait(g1Parked) { // the callback goroutine of message 1 is ending: callbackInProcess is 0, it is still counted
+			ok = false
+		}
+		if ok {
+			atomic.StoreInt32(&arm2, 1)
+			if !send() || !wait(loopParked) { // message 2 is on the event loop, which has seen the stream open
+				ok = false
+			}
+		}
+		closed := make(chan struct{})
+		if ok {
+			go func() { cl.Close(); close(closed) }()
+			// the closer has marked the stream closed and waits for the ending goroutine
+			ok = waitUntil(5*time.Second, func() bool { return cl.getStreamState() == uint32(streamClosed) })
+			time.Sleep(time.Duration(50+rng.Intn(300)) * time.Microsecond)
+		}
+		atomic.StoreInt32(&arm1, 0)
+		atomic.StoreInt32(&arm2, 0)
+		close(g1c)
+		spinFor(rng.Intn(30000))
+		close(lpc)
+		done++
+		if !ok {
+			sv.Close()
+			cl.Close()
+			continue
+		}
+		reached++
+		select {
+		case <-closed:
+		case <-time.After(10 * time.Second):
+			return done, reached, fmt.Sprintf("directed close-vs-restart: iteration %d: Close() from a user goroutine did not return within 10 s (stream state %d, callbackInProcess %d)",
+				it, cl.getStreamState(), atomic.LoadUint32(&cl.callbackInProcess)), ""
+		}
+		sv.Close()
+	}
+	if reached == 0 {
+		inc = "the three parties were never held at their points together"
+	}
+	return
 }
